@@ -126,7 +126,7 @@ def names_phase(tier, rng, odfdo, known, only=None):
 
 def run(tier, seed, replay=None):
     return tr.run_table_check('C07', tier, seed, replay, 'chk07', LAYERS, SOFT, tl.OPS_CORE, extra=names_phase,
-                              prebuild=write_gen, extra_targets=('Tablechk', 'TableExtchk', 'Tablexml2chk', 'Names2proof', 'Gen_Names', 'Gen_Namesok'),
+                              prebuild=write_gen, extra_targets=('Tablechk', 'TableExtchk', 'Tablexml2chk', 'TableXfchk', 'Names2proof', 'Gen_Names', 'Gen_Namesok'),
                               trusted=TRUSTED, modelled=MODELLED,
                               assumptions=['operations carry repeats >= 1 and integer coordinates of either sign',
                                            'tables consist of table:table-column elements followed by table:table-row elements',
